@@ -425,7 +425,7 @@ class World:
 
     def build_exec_nodes(self):
         xns = StrictDict()
-        for nid in self.order:
+        for nid in getattr(self, "insert_order", None) or self.order:
             n = self.nodes[nid]
             args = [UsageExecNode(d, list(k)) for d, k in n.get("deps", [])]
             kwargs = {name: UsageExecNode(d, list(k)) for name, (d, k) in n.get("kwdeps", {}).items()}
